@@ -37,13 +37,15 @@ structure Abs (σ : Type) where
   mp : Nat := 0
   /-- order part: after all queued events, a Keyword lexeme is more recent than any closing parenthesis -/
   kwp : Bool := false
+  /-- text-order part: after all queued events, a lower bound on cursor − (largest end position reported) -/
+  se : Nat := 1
   deriving DecidableEq, Repr
 
 /-- the bounds of the extent part are kept up to this value -/
 def posCap : Nat := 3
 
 /-- key of a stored abstract state: step-stack top, open kinds, lag, fresh, distance bounds, cursor bound -/
-abbrev RKey (σ : Type) := List σ × List Ev × Nat × Bool × List Nat × Nat × Bool
+abbrev RKey (σ : Type) := List σ × List Ev × Nat × Bool × List Nat × Nat × Bool × Nat
 
 /-- the largest rewind of the cursor the progress analysis accepts -/
 def rewCap : Nat := 2
@@ -80,6 +82,13 @@ def applyD (eofByte : Bool) (mp : Nat) (evd : List Nat) (e : Ev) (back : Nat) : 
     | d :: rest => if back ≤ d + 1 && (!eofByte || decide (1 ≤ back)) then some rest else none
     | [] => none
   else if back ≤ mp && (!eofByte || decide (1 ≤ back)) then some evd else none
+
+/-- effect of one event, queued at `cursor − back`, on the text-order part; `none` = it cannot be shown that
+    the lexeme begins after the end of every lexeme reported before, or lexemes would nest -/
+def applyE (evk : List Ev) (se : Nat) (e : Ev) (back : Nat) : Option Nat :=
+  if e.isBeginning then (if evk.isEmpty && decide (back < se) then some se else none)
+  else if e.isEnding then (if evk.length == 1 then some (min se back) else none)
+  else if evk.isEmpty && decide (back < se) then some (min se back) else none
 
 /-- lexeme types that the core hands to the directive being accumulated (`currentDirective`) -/
 def phNeeds : LexType → Bool
@@ -130,16 +139,16 @@ def absProg {σ} (c : UInt8) : Prog σ → Abs σ → Option (List (ATail σ))
     | [] => none
     | t :: rest => absProg c k { a with st := t, stk := rest }
   | .found e back k, a =>
-    match applyK a.evk e, applyD (c == 0) a.mp a.evd e back, applyP a.kwp e with
-    | some evk', some evd', some kwp' =>
-      if a.nf < findCap then absProg c k { a with evk := evk', evd := evd', kwp := kwp', nf := a.nf + 1 } else none
-    | _, _, _ => none
+    match applyK a.evk e, applyD (c == 0) a.mp a.evd e back, applyP a.kwp e, applyE a.evk a.se e back with
+    | some evk', some evd', some kwp', some se' =>
+      if a.nf < findCap then absProg c k { a with evk := evk', evd := evd', kwp := kwp', se := se', nf := a.nf + 1 } else none
+    | _, _, _, _ => none
   | .curSub n k, a =>
     -- a rewind is accepted only at the high-water mark, after it has advanced since the last rewind,
     -- once per byte, by 1..rewCap (otherwise termination of the byte loop is not shown)
     -- and only as far as the cursor and every open lexeme are known to be from their beginnings
-    if a.lag == 0 && a.fresh && a.rew == 0 && !a.jmp && 1 ≤ n && n ≤ rewCap && n ≤ a.mp && a.evd.all (n ≤ ·) then
-      absProg c k { a with mv := true, rew := n, mp := a.mp - n, evd := a.evd.map (· - n) }
+    if a.lag == 0 && a.fresh && a.rew == 0 && !a.jmp && 1 ≤ n && n ≤ rewCap && n ≤ a.mp && a.evd.all (n ≤ ·) && n ≤ a.se then
+      absProg c k { a with mv := true, rew := n, mp := a.mp - n, evd := a.evd.map (· - n), se := a.se - n }
     else none
   | .readLen _ k, a =>
     if a.lag == 0 && a.rew == 0 then absProg c k { a with mv := true, jmp := true } else none
@@ -191,7 +200,8 @@ def Abs.next {σ} (a : Abs σ) : Abs σ :=
            lag := if a.rew != 0 then a.rew - 1 else if a.jmp then 0 else a.lag - 1,
            fresh := if a.rew != 0 then false else if a.jmp then true else a.lag == 0,
            evd := a.evd.map (fun d => min posCap (d + 1)),
-           mp := min posCap (a.mp + 1) }
+           mp := min posCap (a.mp + 1),
+           se := min posCap (a.se + 1) }
 
 /-- one byte, from the abstract state's own step function -/
 def absByte {σ} (prog : σ → Prog σ) (a : Abs σ) (c : UInt8) : Option (List (Abs σ)) :=
@@ -202,7 +212,7 @@ def succsAll {σ} (prog : σ → Prog σ) (inputs : List UInt8) (a : Abs σ) : O
 
 /-- membership in a reach set given per step function (`mv` is not part of the stored states) -/
 def memR {σ} [DecidableEq σ] (reachAt : σ → List (RKey σ)) (a : Abs σ) : Bool :=
-  (reachAt a.st).contains (a.stk, a.evk, a.lag, a.fresh, a.evd, a.mp, a.kwp)
+  (reachAt a.st).contains (a.stk, a.evk, a.lag, a.fresh, a.evd, a.mp, a.kwp, a.se)
 
 /-- one abstract state is fine: every input byte is safe and leads into the set; the end-of-file
     pseudo byte is safe, and it is the last thing a scanner sees unless the step function moved the
@@ -222,7 +232,7 @@ def okAt {σ} [DecidableEq σ] (prog : σ → Prog σ) (inputs : List UInt8)
 /-- the set is closed at step function `st` -/
 def closedAt {σ} [DecidableEq σ] (prog : σ → Prog σ) (inputs : List UInt8)
     (reachAt : σ → List (RKey σ)) (st : σ) : Bool :=
-  (reachAt st).all fun p => okAt prog inputs reachAt { st := st, stk := p.1, evk := p.2.1, lag := p.2.2.1, fresh := p.2.2.2.1, evd := p.2.2.2.2.1, mp := p.2.2.2.2.2.1, kwp := p.2.2.2.2.2.2 }
+  (reachAt st).all fun p => okAt prog inputs reachAt { st := st, stk := p.1, evk := p.2.1, lag := p.2.2.1, fresh := p.2.2.2.1, evd := p.2.2.2.2.1, mp := p.2.2.2.2.2.1, kwp := p.2.2.2.2.2.2.1, se := p.2.2.2.2.2.2.2 }
 
 /-! bytes that occur in byte tests of a program -/
 def condBytes : Cond → List Nat
@@ -278,6 +288,81 @@ def simQ (size : Int) : List (Ev × Int) → List (Ev × Int) → Option (List (
       | [] => none
     else if 0 ≤ ev.2 ∧ ev.2 < size then simQ size stk rest else none
 
+/-- run the queued events over the event stack for the text order: lexemes do not nest, every lexeme begins
+    after the largest end position reported before (`le`); the result is the stack of begun lexemes and the
+    largest end position afterwards -/
+def simE : List (Ev × Int) → Int → List (Ev × Int) → Option (List (Ev × Int) × Int)
+  | stk, le, [] => some (stk, le)
+  | stk, le, ev :: rest =>
+    if ev.1.isBeginning then (if stk = [] ∧ le < ev.2 then simE [ev] le rest else none)
+    else if ev.1.isEnding then
+      match stk with
+      | [_] => simE [] (max le ev.2) rest
+      | _ => none
+    else if stk = [] ∧ le < ev.2 then simE [] (max le ev.2) rest else none
+
+theorem simE_append (stk : List (Ev × Int)) (le : Int) (l : List (Ev × Int)) (ev : Ev × Int) :
+    simE stk le (l ++ [ev]) = (simE stk le l).bind (fun r => simE r.1 r.2 [ev]) := by
+  induction l generalizing stk le with
+  | nil => simp [simE]
+  | cons x rest ih =>
+    simp only [List.cons_append, simE]
+    split
+    · split
+      · exact ih _ _
+      · rfl
+    · split
+      · split
+        · exact ih _ _
+        · rfl
+      · split
+        · exact ih _ _
+        · rfl
+
+/-- where both succeed, the text-order run and the extent run leave the same stack of begun lexemes -/
+theorem simE_stack (size : Int) (stk : List (Ev × Int)) (le : Int) (l L : List (Ev × Int)) (r : List (Ev × Int) × Int)
+    (hq : simQ size stk l = some L) (he : simE stk le l = some r) : r.1 = L := by
+  induction l generalizing stk le with
+  | nil =>
+    simp only [simQ, Option.some.injEq] at hq
+    simp only [simE, Option.some.injEq] at he
+    subst hq; subst he; rfl
+  | cons x rest ih =>
+    simp only [simQ] at hq
+    simp only [simE] at he
+    by_cases hb : x.1.isBeginning = true
+    · simp only [hb, if_true] at hq he
+      split at hq
+      · split at he
+        · rename_i hc
+          have : stk = [] := hc.1
+          subst this
+          exact ih _ _ hq he
+        · simp at he
+      · simp at hq
+    · simp only [hb, Bool.false_eq_true, if_false] at hq he
+      by_cases hen : x.1.isEnding = true
+      · simp only [hen, if_true] at hq he
+        cases stk with
+        | nil => simp at hq
+        | cons b stk' =>
+          cases stk' with
+          | nil =>
+            simp only at hq he
+            split at hq
+            · exact ih _ _ hq he
+            · simp at hq
+          | cons b2 stk'' => simp at he
+      · simp only [hen, Bool.false_eq_true, if_false] at hq he
+        split at hq
+        · split at he
+          · rename_i hc
+            have : stk = [] := hc.1
+            subst this
+            exact ih _ _ hq he
+          · simp at he
+        · simp at hq
+
 /-- every begun lexeme starts at a position `≥ 0` that the cursor has left behind by at least its bound -/
 def DistOk (cur : Int) : List (Ev × Int) → List Nat → Prop
   | [], [] => True
@@ -285,15 +370,19 @@ def DistOk (cur : Int) : List (Ev × Int) → List Nat → Prop
   | _, _ => False
 
 /-- extent part of the concretisation (over the fields it depends on) -/
-structure ExtRelF (size : Int) (evd : List Nat) (mp : Nat) (kwp : Bool) (evs finds : List (Ev × Int)) (params : List Lexeme) (cur : Int) (sph : Bool) : Prop where
+structure ExtRelF (size : Int) (evd : List Nat) (mp : Nat) (kwp : Bool) (ase : Nat) (evs finds : List (Ev × Int)) (params : List Lexeme) (cur : Int) (sph : Bool) (sle : Int) : Prop where
   q : ∃ L, simQ size evs finds = some L ∧ DistOk cur L evd
   mp : (mp : Int) ≤ cur
   params : ∀ l ∈ params, WFLex size l
   evsPos : ∀ x ∈ evs, 0 ≤ x.2
   ph : simP sph (finds.map (·.1)) = some kwp
+  /-- text order: the queue keeps lexemes apart and in order; the open lexeme (if any) begins after `le` -/
+  ord : ∃ r, simE evs sle finds = some r ∧ r.2 + ase ≤ cur
+  evsLe : ∀ x ∈ evs, sle < x.2
+  evsOne : evs.length ≤ 1
 
 abbrev ExtRel {σ} (size : Int) (a : Abs σ) (s : Sc σ) : Prop :=
-  ExtRelF size a.evd a.mp a.kwp s.evs s.finds s.params s.cur s.ph
+  ExtRelF size a.evd a.mp a.kwp a.se s.evs s.finds s.params s.cur s.ph s.le
 
 /-- concretisation -/
 def Conc {σ} (a : Abs σ) (s : Sc σ) : Prop :=
@@ -464,13 +553,15 @@ theorem simP_append (ph : Bool) (l : List Ev) (e : Ev) :
 
 /-- queueing one event at `cur − back` where the abstract interpreter accepts it -/
 theorem found_ext (size cur : Int) (eofB : Bool) (mp : Nat) (evd evd' : List Nat) (evk evk' : List Ev) (kwp kwp' sph : Bool)
+    (ase ase' : Nat) (sle : Int)
     (evs finds : List (Ev × Int)) (params : List Lexeme) (e : Ev) (back : Nat)
-    (hx : ExtRelF size evd mp kwp evs finds params cur sph)
+    (hx : ExtRelF size evd mp kwp ase evs finds params cur sph sle)
     (hkinds : applyKs (kindsOf evs) (kindsOf finds) = some evk)
     (hk : applyK evk e = some evk') (hd : applyD eofB mp evd e back = some evd') (hp : applyP kwp e = some kwp')
+    (he : applyE evk ase e back = some ase')
     (hle : cur ≤ size) (hlt : eofB = false → cur < size) :
-    ExtRelF size evd' mp kwp' evs (finds ++ [(e, cur - back)]) params cur sph := by
-  obtain ⟨⟨L, hq, hdist⟩, hmp, hpar, hpos, hph⟩ := hx
+    ExtRelF size evd' mp kwp' ase' evs (finds ++ [(e, cur - back)]) params cur sph sle := by
+  obtain ⟨⟨L, hq, hdist⟩, hmp, hpar, hpos, hph, ⟨r, hr, hrle⟩, hevsLe, hevsOne⟩ := hx
   have hph' : simP sph ((finds ++ [(e, cur - back)]).map (·.1)) = some kwp' := by
     simp only [List.map_append, List.map_cons, List.map_nil]
     rw [simP_append, hph]
@@ -479,7 +570,66 @@ theorem found_ext (size cur : Int) (eofB : Bool) (mp : Nat) (evd evd' : List Nat
     have := simQ_kinds size evs finds L hq
     rw [hkinds] at this
     exact (Option.some.inj this).symm
-  refine ⟨?_, hmp, hpar, hpos, hph'⟩
+  have hrL : r.1 = L := simE_stack size evs sle finds L r hq hr
+  have hord : ∃ r', simE evs sle (finds ++ [(e, cur - back)]) = some r' ∧ r'.2 + ase' ≤ cur := by
+    rw [simE_append, hr]
+    simp only [Option.bind, simE]
+    unfold applyE at he
+    by_cases hb : e.isBeginning = true
+    · simp only [hb, if_true] at he ⊢
+      split at he
+      · rename_i hc
+        simp only [Bool.and_eq_true, List.isEmpty_iff, decide_eq_true_eq] at hc
+        simp only [Option.some.injEq] at he
+        subst he
+        have hL : r.1 = [] := by rw [hrL]; cases L with
+          | nil => rfl
+          | cons x xs => rw [← hkL] at hc; simp [kindsOf] at hc
+        have : r.1 = [] ∧ r.2 < cur - back := ⟨hL, by omega⟩
+        simp only [this, and_self, if_true]
+        exact ⟨_, rfl, hrle⟩
+      · simp at he
+    · simp only [hb, Bool.false_eq_true, if_false] at he ⊢
+      by_cases hen : e.isEnding = true
+      · simp only [hen, if_true] at he ⊢
+        split at he
+        · rename_i hc
+          simp only [Option.some.injEq] at he
+          subst he
+          have hlen : r.1.length = 1 := by
+            rw [hrL, ← List.length_map (f := (·.1)) (as := L)]
+            have : L.map (·.1) = evk := hkL
+            rw [this]; simpa using hc
+          cases hr1 : r.1 with
+          | nil => simp [hr1] at hlen
+          | cons x xs =>
+            cases xs with
+            | nil =>
+              simp only
+              refine ⟨_, rfl, ?_⟩
+              simp only
+              have : min ase back ≤ ase := Nat.min_le_left _ _
+              have : min ase back ≤ back := Nat.min_le_right _ _
+              omega
+            | cons y ys => simp [hr1] at hlen
+        · simp at he
+      · simp only [hen, Bool.false_eq_true, if_false] at he ⊢
+        split at he
+        · rename_i hc
+          simp only [Bool.and_eq_true, List.isEmpty_iff, decide_eq_true_eq] at hc
+          simp only [Option.some.injEq] at he
+          subst he
+          have hL : r.1 = [] := by rw [hrL]; cases L with
+            | nil => rfl
+            | cons x xs => rw [← hkL] at hc; simp [kindsOf] at hc
+          have : r.1 = [] ∧ r.2 < cur - back := ⟨hL, by omega⟩
+          simp only [this, and_self, if_true]
+          refine ⟨_, rfl, ?_⟩
+          simp only
+          have : min ase back ≤ back := Nat.min_le_right _ _
+          omega
+        · simp at he
+  refine ⟨?_, hmp, hpar, hpos, hph', hord, hevsLe, hevsOne⟩
   rw [simQ_append, hq]
   simp only [Option.bind, simQ]
   unfold applyD at hd
@@ -694,14 +844,17 @@ theorem runProg_sound {σ} (env : Env) (c : UInt8) (c0 : Snap) (hsz : c0.size = 
         cases hpp : applyP a.kwp e with
         | none => simp [hk, hd, hpp] at h
         | some kwp' =>
-          simp only [hk, hd, hpp] at h
+          cases hee : applyE a.evk a.se e back with
+          | none => simp [hk, hd, hpp, hee] at h
+          | some se' =>
+          simp only [hk, hd, hpp, hee] at h
           by_cases hnf : a.nf < findCap
           · simp only [hnf, if_true] at h
             simp only [runProg]
             have hr := hc.2.2.1
             have hx := hc.2.2.2.1
             have hb := hc.2.2.2.2
-            refine ih { a with evk := evk', evd := evd', kwp := kwp', nf := a.nf + 1 } _ _
+            refine ih { a with evk := evk', evd := evd', kwp := kwp', se := se', nf := a.nf + 1 } _ _
               ⟨⟨hc.1.1, hc.1.2.1, ?_⟩, hc.2.1, ⟨hr.noJmp, hr.jmp, ?_, by simp only; omega, hr.lag, hr.fresh, hr.rewOk, hr.jmpOk⟩, ?_, hb⟩ h
             · simp only [kindsOf, List.map_append, List.map_cons, List.map_nil]
               have := hc.1.2.2
@@ -711,15 +864,15 @@ theorem runProg_sound {σ} (env : Env) (c : UInt8) (c0 : Snap) (hsz : c0.size = 
             · have := hr.nf
               simp only [List.length_append, List.length_cons, List.length_nil]
               omega
-            · exact found_ext c0.size s.cur (c == 0) a.mp a.evd evd' a.evk evk' a.kwp kwp' s.ph s.evs s.finds s.params e back hx hc.1.2.2 hk hd hpp
+            · exact found_ext c0.size s.cur (c == 0) a.mp a.evd evd' a.evk evk' a.kwp kwp' s.ph a.se se' s.le s.evs s.finds s.params e back hx hc.1.2.2 hk hd hpp hee
                 hb.1 (by rw [← heof]; exact hb.2)
           · simp [hnf] at h
   | curSub n k ih =>
     simp only [absProg] at h
-    by_cases hg : (a.lag == 0 && a.fresh && a.rew == 0 && !a.jmp && decide (1 ≤ n) && decide (n ≤ rewCap) && decide (n ≤ a.mp) && a.evd.all (n ≤ ·)) = true
+    by_cases hg : (a.lag == 0 && a.fresh && a.rew == 0 && !a.jmp && decide (1 ≤ n) && decide (n ≤ rewCap) && decide (n ≤ a.mp) && a.evd.all (n ≤ ·) && decide (n ≤ a.se)) = true
     · simp only [hg, if_true] at h
       simp only [Bool.and_eq_true, beq_iff_eq, Bool.not_eq_true', decide_eq_true_eq, List.all_eq_true] at hg
-      obtain ⟨⟨⟨⟨⟨⟨⟨hlag, hfresh⟩, hrew⟩, hjmp⟩, _⟩, hcap⟩, hmpn⟩, hall⟩ := hg
+      obtain ⟨⟨⟨⟨⟨⟨⟨⟨hlag, hfresh⟩, hrew⟩, hjmp⟩, _⟩, hcap⟩, hmpn⟩, hall⟩, hsen⟩ := hg
       have hr := hc.2.2.1
       have hx := hc.2.2.2.1
       have hb := hc.2.2.2.2
@@ -727,8 +880,8 @@ theorem runProg_sound {σ} (env : Env) (c : UInt8) (c0 : Snap) (hsz : c0.size = 
       simp only [runProg]
       have hnn : ¬ (s.cur - n < 0) := by omega
       simp only [hnn, if_false]
-      refine ih { a with mv := true, rew := n, mp := a.mp - n, evd := a.evd.map (· - n) } _ _ ⟨⟨hc.1.1, hc.1.2.1, hc.1.2.2⟩, by simp,
-        ⟨?_, ?_, hr.nf, hr.nfCap, hr.lag, hr.fresh, ?_, ?_⟩, ⟨?_, ?_, hx.params, hx.evsPos, hx.ph⟩, ?_, ?_⟩ h
+      refine ih { a with mv := true, rew := n, mp := a.mp - n, evd := a.evd.map (· - n), se := a.se - n } _ _ ⟨⟨hc.1.1, hc.1.2.1, hc.1.2.2⟩, by simp,
+        ⟨?_, ?_, hr.nf, hr.nfCap, hr.lag, hr.fresh, ?_, ?_⟩, ⟨?_, ?_, hx.params, hx.evsPos, hx.ph, ?_, hx.evsLe, hx.evsOne⟩, ?_, ?_⟩ h
       · intro _
         have := hr.noJmp hjmp
         simp only [hrew] at this
@@ -746,6 +899,8 @@ theorem runProg_sound {σ} (env : Env) (c : UInt8) (c0 : Snap) (hsz : c0.size = 
         exact ⟨L, hq, DistOk_sub s.cur n L a.evd (fun d hd => by simpa using hall d hd) hdist⟩
       · simp only
         omega
+      · obtain ⟨r, hr1, hr2⟩ := hx.ord
+        exact ⟨r, hr1, by simp only; omega⟩
       · simp only; have := hb.1; omega
       · intro he; simp only; have := hb.1; omega
     · simp [hg] at h
@@ -786,11 +941,13 @@ theorem runProg_sound {σ} (env : Env) (c : UInt8) (c0 : Snap) (hsz : c0.size = 
           by_cases hn : n > 0
           · simp only [hn, if_true]
             refine ih { a with mv := true, jmp := true } _ _ ⟨⟨hc.1.1, hc.1.2.1, hc.1.2.2⟩, by simp, hrel _ ?_ rfl,
-              ⟨?_, ?_, hx.params, hx.evsPos, hx.ph⟩, ?_, ?_⟩ h
+              ⟨?_, ?_, hx.params, hx.evsPos, hx.ph, ?_, hx.evsLe, hx.evsOne⟩, ?_, ?_⟩ h
             · simp only; omega
             · obtain ⟨L, hq, hdist⟩ := hx.q
               exact ⟨L, hq, DistOk_mono s.cur _ (by simp only; omega) L a.evd hdist⟩
             · simp only; omega
+            · obtain ⟨r, hr1, hr2⟩ := hx.ord
+              exact ⟨r, hr1, by simp only; omega⟩
             · simp only; rw [hsz]; omega
             · intro _; simp only; rw [hsz]; omega
           · simp only [hn, if_false]
@@ -837,13 +994,13 @@ theorem runProg_sound {σ} (env : Env) (c : UInt8) (c0 : Snap) (hsz : c0.size = 
       simpa using hm
 
 /-- step functions do not touch the ghost phase -/
-def Tail.phIs {σ} (ph : Bool) : Tail σ → Prop
-  | .done s' => s'.ph = ph
-  | .call _ s' => s'.ph = ph
-  | .redispatch s' => s'.ph = ph
+def Tail.phIs {σ} (ph : Bool) (le : Int) : Tail σ → Prop
+  | .done s' => s'.ph = ph ∧ s'.le = le
+  | .call _ s' => s'.ph = ph ∧ s'.le = le
+  | .redispatch s' => s'.ph = ph ∧ s'.le = le
   | .fault _ => True
 
-theorem runProg_ph {σ} (env : Env) (c : UInt8) (p : Prog σ) (s : Sc σ) : (runProg env c p s).phIs s.ph := by
+theorem runProg_ph {σ} (env : Env) (c : UInt8) (p : Prog σ) (s : Sc σ) : (runProg env c p s).phIs s.ph s.le := by
   induction p generalizing s with
   | setStep t k ih => simp only [runProg]; exact ih _
   | push t k ih => simp only [runProg]; exact ih _
@@ -883,7 +1040,7 @@ theorem runProg_ph {σ} (env : Env) (c : UInt8) (p : Prog σ) (s : Sc σ) : (run
   | failBasic m => simp [runProg, Tail.phIs]
 
 theorem stepFuel_ph {σ} (env : Env) (prog : σ → Prog σ) (c : UInt8) (n : Nat) (st : σ) (s s' : Sc σ)
-    (h : stepFuel env prog c n st s = .ok s') : s'.ph = s.ph := by
+    (h : stepFuel env prog c n st s = .ok s') : s'.ph = s.ph ∧ s'.le = s.le := by
   induction n generalizing st s with
   | zero => simp [stepFuel] at h
   | succ n ih =>
@@ -898,10 +1055,12 @@ theorem stepFuel_ph {σ} (env : Env) (prog : σ → Prog σ) (c : UInt8) (n : Na
     · cases h
     · rename_i t s1 hr
       rw [hr] at hp
-      rw [ih t s1 h]; exact hp
+      have := ih t s1 h
+      exact ⟨this.1.trans hp.1, this.2.trans hp.2⟩
     · rename_i s1 hr
       rw [hr] at hp
-      rw [ih _ s1 h]; exact hp
+      have := ih _ s1 h
+      exact ⟨this.1.trans hp.1, this.2.trans hp.2⟩
 
 /-- the whole byte step, following tail calls -/
 theorem stepFuel_sound {σ} (env : Env) (prog : σ → Prog σ) (c : UInt8) (c0 : Snap) (hsz : c0.size = env.size) (heof : c0.eof = (c == 0))
@@ -980,72 +1139,101 @@ theorem applyP_lex (ph p1 : Bool) (e : Ev) (hb : e.isBeginning = false) (h : app
     | true => rfl
     | false => simp [hn, hph] at hc
 
+/-- what a reported lexeme means for the ghost end mark: it begins after everything reported before -/
+def LexOrd (le0 le1 : Int) (l : Lexeme) : Prop := le0 < l.b ∧ le1 = max le0 l.e
+
 theorem processEvent_sound {σ} (size : Int) (a : Abs σ) (s : Sc σ) (ev : Ev × Int) (rest : List (Ev × Int))
     (hf : s.finds = ev :: rest) (hc : Conc a s) (hx : ExtRel size a s) :
     ∃ lex s', processEvent { s with finds := rest } ev = .ok (lex, s') ∧ Conc a s' ∧ ExtRel size a s' ∧ s'.finds = rest ∧
-      s'.cur = s.cur ∧ s'.params = s.params ∧ (∀ l, lex = some l → WFLex size l ∧ LexPh s.ph s'.ph l) ∧
-      (lex = none → s'.ph = s.ph) := by
+      s'.cur = s.cur ∧ s'.params = s.params ∧
+      (∀ l, lex = some l → WFLex size l ∧ LexPh s.ph s'.ph l ∧ LexOrd s.le s'.le l) ∧
+      (lex = none → s'.ph = s.ph ∧ s'.le = s.le) := by
   obtain ⟨hstep, hstack, hk⟩ := hc
-  obtain ⟨⟨L, hq, hdist⟩, hmp, hpar, hpos, hph⟩ := hx
+  obtain ⟨⟨L, hq, hdist⟩, hmp, hpar, hpos, hph, ⟨r, hr1, hr2⟩, hevsLe, hevsOne⟩ := hx
   simp only [hf, kindsOf, List.map_cons, applyKs] at hk
   simp only [hf, simQ] at hq
   simp only [hf, List.map_cons] at hph
+  simp only [hf, simE] at hr1
   obtain ⟨p1, hp1, hprest⟩ := simP_cons _ _ _ _ hph
   unfold processEvent
   by_cases hb : ev.1.isBeginning = true
-  · simp only [hb, if_true] at hq ⊢
+  · simp only [hb, if_true] at hq hr1 ⊢
     have hp1' : p1 = s.ph := by simp only [applyP, hb, if_true, Option.some.injEq] at hp1; exact hp1.symm
     subst hp1'
     split at hq
     · rename_i hpos0
-      refine ⟨_, _, rfl, ⟨hstep, hstack, ?_⟩, ⟨⟨L, hq, hdist⟩, hmp, hpar, ?_, hprest⟩, rfl, rfl, rfl, by simp, fun _ => rfl⟩
-      · simp only [applyK, hb, if_true] at hk
-        simpa [kindsOf] using hk
-      · intro x hxm
-        rcases List.mem_cons.mp hxm with rfl | hxm
-        · exact hpos0.1
-        · exact hpos x hxm
+      split at hr1
+      · rename_i hce
+        have hevs : s.evs = [] := hce.1
+        refine ⟨_, _, rfl, ⟨hstep, hstack, ?_⟩, ⟨⟨L, hq, hdist⟩, hmp, hpar, ?_, hprest, ⟨r, by simpa [hevs] using hr1, hr2⟩, ?_, ?_⟩,
+          rfl, rfl, rfl, by simp, fun _ => ⟨rfl, rfl⟩⟩
+        · simp only [applyK, hb, if_true] at hk
+          simpa [kindsOf] using hk
+        · intro x hxm
+          rcases List.mem_cons.mp hxm with rfl | hxm
+          · exact hpos0.1
+          · exact hpos x hxm
+        · intro x hxm
+          simp only [hevs, List.mem_cons, List.not_mem_nil, or_false] at hxm
+          subst hxm
+          exact hce.2
+        · simp [hevs]
+      · simp at hr1
     · simp at hq
   · have hbf : ev.1.isBeginning = false := by simpa using hb
     obtain ⟨hneed, hp1eq⟩ := applyP_lex s.ph p1 ev.1 hbf hp1
     subst hp1eq
-    simp only [hb, Bool.false_eq_true, if_false] at hq ⊢
+    simp only [hb, Bool.false_eq_true, if_false] at hq hr1 ⊢
     by_cases he : ev.1.isEnding = true
-    · simp only [he, if_true] at hq ⊢
+    · simp only [he, if_true] at hq hr1 ⊢
       simp only [applyK, hb, Bool.false_eq_true, if_false, he, if_true] at hk
       cases hev : s.evs with
       | nil => simp [hev] at hk
       | cons st restEvs =>
-        simp only [hev, List.map_cons] at hk hq
+        simp only [hev, List.map_cons] at hk hq hr1
+        have hrestE : restEvs = [] := by
+          cases restEvs with
+          | nil => rfl
+          | cons y ys => simp at hr1
+        subst hrestE
+        simp only at hr1
         split at hq
         · rename_i hcond
           simp only [hcond.1, if_true] at hk ⊢
-          refine ⟨_, _, rfl, ⟨hstep, hstack, by simpa [kindsOf] using hk⟩, ⟨⟨L, hq, hdist⟩, hmp, hpar, ?_, hprest⟩, rfl, rfl, rfl, ?_, by simp⟩
-          · intro x hxm
-            exact hpos x (by rw [hev]; exact List.mem_cons_of_mem _ hxm)
+          refine ⟨_, _, rfl, ⟨hstep, hstack, by simpa [kindsOf] using hk⟩,
+            ⟨⟨L, hq, hdist⟩, hmp, hpar, ?_, hprest, ⟨r, hr1, hr2⟩, ?_, by simp⟩, rfl, rfl, rfl, ?_, by simp⟩
+          · intro x hxm; simp at hxm
+          · intro x hxm; simp at hxm
           · intro l hl
             simp only [Option.some.injEq] at hl
             subst hl
-            exact ⟨⟨hpos st (by rw [hev]; simp), hcond.2.1, hcond.2.2⟩, hneed, rfl⟩
+            exact ⟨⟨hpos st (by rw [hev]; simp), hcond.2.1, hcond.2.2⟩, ⟨hneed, rfl⟩, hevsLe st (by rw [hev]; simp), rfl⟩
         · simp at hq
-    · simp only [he, Bool.false_eq_true, if_false] at hq ⊢
+    · simp only [he, Bool.false_eq_true, if_false] at hq hr1 ⊢
       simp only [applyK, hb, Bool.false_eq_true, if_false, he] at hk
       split at hq
       · rename_i hcond
-        refine ⟨_, _, rfl, ⟨hstep, hstack, by simpa [kindsOf] using hk⟩, ⟨⟨L, hq, hdist⟩, hmp, hpar, hpos, hprest⟩, rfl, rfl, rfl, ?_, by simp⟩
-        intro l hl
-        simp only [Option.some.injEq] at hl
-        subst hl
-        exact ⟨⟨hcond.1, by simp only; omega, hcond.2⟩, hneed, rfl⟩
+        split at hr1
+        · rename_i hce
+          have hevs : s.evs = [] := hce.1
+          refine ⟨_, _, rfl, ⟨hstep, hstack, by simpa [kindsOf] using hk⟩,
+            ⟨⟨L, hq, hdist⟩, hmp, hpar, hpos, hprest, ⟨r, by simpa [hevs] using hr1, hr2⟩, ?_, hevsOne⟩, rfl, rfl, rfl, ?_, by simp⟩
+          · intro x hxm; rw [hevs] at hxm; simp at hxm
+          · intro l hl
+            simp only [Option.some.injEq] at hl
+            subst hl
+            exact ⟨⟨hcond.1, by simp only; omega, hcond.2⟩, ⟨hneed, rfl⟩, hce.2, rfl⟩
+        · simp at hr1
       · simp at hq
 
 theorem drain_sound {σ} (size : Int) (a : Abs σ) (n : Nat) (s : Sc σ) (hn : n ≤ s.finds.length) (hc : Conc a s)
     (hx : ExtRel size a s) :
     ∃ lex s', drain n s = .ok (lex, s') ∧ Conc a s' ∧ ExtRel size a s' ∧ s'.cur = s.cur ∧
-      s'.finds.length ≤ s.finds.length ∧ (∀ l, lex = some l → WFLex size l ∧ LexPh s.ph s'.ph l) ∧
-      (lex = none → s'.ph = s.ph) := by
+      s'.finds.length ≤ s.finds.length ∧
+      (∀ l, lex = some l → WFLex size l ∧ LexPh s.ph s'.ph l ∧ LexOrd s.le s'.le l) ∧
+      (lex = none → s'.ph = s.ph ∧ s'.le = s.le) := by
   induction n generalizing s with
-  | zero => exact ⟨none, s, rfl, hc, hx, rfl, Nat.le_refl _, by simp, fun _ => rfl⟩
+  | zero => exact ⟨none, s, rfl, hc, hx, rfl, Nat.le_refl _, by simp, fun _ => ⟨rfl, rfl⟩⟩
   | succ n ih =>
     cases hfs : s.finds with
     | nil => simp [hfs] at hn
@@ -1055,26 +1243,26 @@ theorem drain_sound {σ} (size : Int) (a : Abs σ) (n : Nat) (s : Sc σ) (hn : n
       cases lex with
       | none =>
         have hn' : n ≤ s'.finds.length := by rw [hrest]; simp [hfs] at hn; omega
-        have hph : s'.ph = s.ph := hnone rfl
+        obtain ⟨hph, hle⟩ := hnone rfl
         obtain ⟨lex2, s2, h2, hc2, hx2, hcur2, hlen2, hwf2, hnone2⟩ := ih s' hn' hc' hx'
         refine ⟨lex2, s2, h2, hc2, hx2, by rw [hcur2, hcur], by rw [hrest] at hlen2; simp only [List.length_cons]; omega, ?_, ?_⟩
-        · intro l hl; rw [← hph]; exact hwf2 l hl
-        · intro hl; rw [← hph]; exact hnone2 hl
+        · intro l hl; rw [← hph, ← hle]; exact hwf2 l hl
+        · intro hl; rw [← hph, ← hle]; exact hnone2 hl
       | some l =>
-        obtain ⟨hl, hlp⟩ := hwf l rfl
+        obtain ⟨hl, hlp, hlo⟩ := hwf l rfl
         refine ⟨some l, _, rfl, ?_, ?_, ?_, ?_, ?_, by simp⟩
         · obtain ⟨h1, h2, h3⟩ := hc'
           cases l.ty <;> exact ⟨h1, h2, h3⟩
-        · obtain ⟨hq, hmp, hpr, hpos, hph⟩ := hx'
+        · obtain ⟨hq, hmp, hpr, hpos, hph, hord, hel, heo⟩ := hx'
           cases hty : l.ty <;> first
-            | exact ⟨hq, hmp, hpr, hpos, hph⟩
-            | (refine ⟨hq, hmp, ?_, hpos, hph⟩
+            | exact ⟨hq, hmp, hpr, hpos, hph, hord, hel, heo⟩
+            | (refine ⟨hq, hmp, ?_, hpos, hph, hord, hel, heo⟩
                intro x hxm
                simp only [List.mem_append, List.mem_singleton] at hxm
                rcases hxm with hxm | rfl
                · exact hpr x hxm
                · exact hl)
-            | (refine ⟨hq, hmp, ?_, hpos, hph⟩
+            | (refine ⟨hq, hmp, ?_, hpos, hph, hord, hel, heo⟩
                intro x hxm
                simp at hxm)
         · cases l.ty <;> exact hcur
@@ -1083,10 +1271,13 @@ theorem drain_sound {σ} (size : Int) (a : Abs σ) (n : Nat) (s : Sc σ) (hn : n
         · intro l' hl'
           simp only [Option.some.injEq] at hl'
           subst hl'
-          refine ⟨hl, ?_⟩
-          revert hlp
-          unfold LexPh
-          cases l.ty <;> exact id
+          refine ⟨hl, ?_, ?_⟩
+          · revert hlp
+            unfold LexPh
+            cases l.ty <;> exact id
+          · revert hlo
+            unfold LexOrd
+            cases l.ty <;> exact id
 
 /-- what the closure check needs from the table and the input alphabet -/
 structure TableOk {σ} [DecidableEq σ] (prog : σ → Prog σ) (inputs : List UInt8)
@@ -1102,11 +1293,11 @@ def Good {σ} [DecidableEq σ] (env : Env) (reachAt : σ → List (RKey σ)) (s 
   (∃ a, memR reachAt a = true ∧ Conc a s ∧ ExtRel env.size a s) ∨
   (s.cur > env.size ∧ ∃ a, Conc a s ∧ ExtRel env.size a s)
 
-/-- outcome of a call of `Next` made in ghost phase `ph0` -/
-def ResOk {σ} [DecidableEq σ] (env : Env) (reachAt : σ → List (RKey σ)) (ph0 : Bool) :
+/-- outcome of a call of `Next` made in ghost phase `ph0` with ghost end mark `le0` -/
+def ResOk {σ} [DecidableEq σ] (env : Env) (reachAt : σ → List (RKey σ)) (ph0 : Bool) (le0 : Int) :
     Except Fault (Option Lexeme × Sc σ) → Prop
-  | .ok (lex, s') => Good env reachAt s' ∧ (∀ l, lex = some l → WFLex env.size l ∧ LexPh ph0 s'.ph l) ∧
-      (lex = none → s'.ph = ph0)
+  | .ok (lex, s') => Good env reachAt s' ∧ (∀ l, lex = some l → WFLex env.size l ∧ LexPh ph0 s'.ph l ∧ LexOrd le0 s'.le l) ∧
+      (lex = none → s'.ph = ph0 ∧ s'.le = le0)
   | .error f => ¬ Crash f
 
 theorem Good.cur_nonneg {σ} [DecidableEq σ] {env : Env} {reachAt : σ → List (RKey σ)} {s : Sc σ}
@@ -1123,7 +1314,7 @@ theorem okAt_spec {σ} [DecidableEq σ] (prog : σ → Prog σ) (inputs : List U
   simp only [closedAt, List.all_eq_true] at h
   simp only [memR, List.contains_iff_mem] at ha
   have hok := h _ ha
-  have hb : ∀ c, absByte prog { st := a.st, stk := a.stk, evk := a.evk, lag := a.lag, fresh := a.fresh, evd := a.evd, mp := a.mp, kwp := a.kwp } c = absByte prog a c := fun _ => rfl
+  have hb : ∀ c, absByte prog { st := a.st, stk := a.stk, evk := a.evk, lag := a.lag, fresh := a.fresh, evd := a.evd, mp := a.mp, kwp := a.kwp, se := a.se } c = absByte prog a c := fun _ => rfl
   simp only [okAt, Bool.and_eq_true, List.all_eq_true, hb, decide_eq_true_eq] at hok
   obtain ⟨⟨h0, hlag⟩, hin⟩ := hok
   refine ⟨?_, hlag, ?_⟩
@@ -1146,15 +1337,16 @@ theorem zeroMsg_ne : ("File cannot contain byte zero" == mismatchMsg) = false :=
 /-- the extent part at the start of the next byte -/
 theorem extRel_next {σ} (size : Int) (a' : Abs σ) (s1 : Sc σ) (hx : ExtRel size a' s1) :
     ExtRel size a'.next ({ s1 with cur := s1.cur + 1 } : Sc σ) := by
-  obtain ⟨⟨L, hq, hdist⟩, hmp, hpar, hpos, hph⟩ := hx
-  refine ⟨⟨L, hq, DistOk_next s1.cur L a'.evd hdist⟩, ?_, hpar, hpos, hph⟩
+  obtain ⟨⟨L, hq, hdist⟩, hmp, hpar, hpos, hph, ⟨r, hr1, hr2⟩, hevsLe, hevsOne⟩ := hx
+  have hse : min posCap (a'.se + 1) ≤ a'.se + 1 := Nat.min_le_right _ _
+  refine ⟨⟨L, hq, DistOk_next s1.cur L a'.evd hdist⟩, ?_, hpar, hpos, hph, ⟨r, hr1, by simp only [Abs.next]; omega⟩, hevsLe, hevsOne⟩
   have : min posCap (a'.mp + 1) ≤ a'.mp + 1 := Nat.min_le_right _ _
   simp only [Abs.next]
   omega
 
 theorem nextLoop_sound {σ} [DecidableEq σ] (env : Env) (prog : σ → Prog σ) (inputs : List UInt8)
     (reachAt : σ → List (RKey σ)) (ht : TableOk prog inputs reachAt) (n : Nat) (s : Sc σ)
-    (hg : Good env reachAt s) : ResOk env reachAt s.ph (nextLoop env prog n s) := by
+    (hg : Good env reachAt s) : ResOk env reachAt s.ph s.le (nextLoop env prog n s) := by
   induction n generalizing s with
   | zero => simp [nextLoop, ResOk, Crash]
   | succ n ih =>
@@ -1163,7 +1355,7 @@ theorem nextLoop_sound {σ} [DecidableEq σ] (env : Env) (prog : σ → Prog σ)
     have hneg : ¬ s.cur < 0 := by omega
     simp only [hneg, if_false]
     by_cases hgt : s.cur > env.size
-    · simp only [hgt, if_true]; exact ⟨hg, by simp, fun _ => rfl⟩
+    · simp only [hgt, if_true]; exact ⟨hg, by simp, fun _ => ⟨rfl, rfl⟩⟩
     · simp only [hgt, if_false]
       have hlive : ∃ a, memR reachAt a = true ∧ Conc a s ∧ ExtRel env.size a s := by
         rcases hg with h | ⟨hbig, _⟩
@@ -1174,9 +1366,9 @@ theorem nextLoop_sound {σ} [DecidableEq σ] (env : Env) (prog : σ → Prog σ)
       have hst : s.step = a.st := hc.1
       have hcc := concC_start env.size a s hc hx (by omega)
       -- what follows a safe byte step
-      have after : ∀ (s1 : Sc σ) (a' : Abs σ), Conc a' s1 → ExtRel env.size a' s1 → s1.ph = s.ph →
+      have after : ∀ (s1 : Sc σ) (a' : Abs σ), Conc a' s1 → ExtRel env.size a' s1 → (s1.ph = s.ph ∧ s1.le = s.le) →
           (memR reachAt a'.next = true ∨ s1.cur + 1 > env.size) →
-          ResOk env reachAt s.ph
+          ResOk env reachAt s.ph s.le
             (match drain ({ s1 with cur := s1.cur + 1 } : Sc σ).finds.length { s1 with cur := s1.cur + 1 } with
              | .error f => .error f
              | .ok (some lex, s3) => .ok (some lex, s3)
@@ -1191,10 +1383,10 @@ theorem nextLoop_sound {σ} [DecidableEq σ] (env : Env) (prog : σ → Prog σ)
           · exact Or.inl ⟨a'.next, hm, hc3, hx3⟩
           · exact Or.inr ⟨by rw [hcur3]; exact hp, a'.next, hc3, hx3⟩
         cases lex with
-        | some l => exact ⟨hg3, fun l' hl' => by rw [← hph1]; exact hwf l' hl', by simp⟩
+        | some l => exact ⟨hg3, fun l' hl' => by rw [← hph1.1, ← hph1.2]; exact hwf l' hl', by simp⟩
         | none =>
-          have h3 : s3.ph = s.ph := by rw [← hph1]; exact hnone rfl
-          rw [← h3]; exact ih s3 hg3
+          have h3 : s3.ph = s.ph ∧ s3.le = s.le := by rw [← hph1.1, ← hph1.2]; exact hnone rfl
+          rw [← h3.1, ← h3.2]; exact ih s3 hg3
       by_cases hend : (s.cur == (env.size : Int)) = true
       · -- end of file: the pseudo byte 0
         simp only [hend, if_true, Bool.not_true, Bool.false_and, Bool.false_eq_true, if_false]
@@ -1235,14 +1427,14 @@ theorem nextLoop_sound {σ} [DecidableEq σ] (env : Env) (prog : σ → Prog σ)
 
 theorem next_sound {σ} [DecidableEq σ] (env : Env) (prog : σ → Prog σ) (inputs : List UInt8)
     (reachAt : σ → List (RKey σ)) (ht : TableOk prog inputs reachAt) (fuel : Nat) (s : Sc σ)
-    (hg : Good env reachAt s) : ResOk env reachAt s.ph (next env prog fuel s) := by
+    (hg : Good env reachAt s) : ResOk env reachAt s.ph s.le (next env prog fuel s) := by
   unfold next
   cases hfs : s.finds with
   | nil => exact nextLoop_sound env prog inputs reachAt ht fuel s hg
   | cons ev rest =>
     dsimp only
     have : ∃ lex s', processEvent { s with finds := rest } ev = .ok (lex, s') ∧ Good env reachAt s' ∧
-        (∀ l, lex = some l → WFLex env.size l ∧ LexPh s.ph s'.ph l) ∧ (lex = none → s'.ph = s.ph) := by
+        (∀ l, lex = some l → WFLex env.size l ∧ LexPh s.ph s'.ph l ∧ LexOrd s.le s'.le l) ∧ (lex = none → s'.ph = s.ph ∧ s'.le = s.le) := by
       rcases hg with ⟨a, ha, hc, hx⟩ | ⟨hbig, a, hc, hx⟩
       · obtain ⟨lex, s', hp, hc', hx', _, _, _, hwf, hnone⟩ := processEvent_sound env.size a s ev rest hfs hc hx
         exact ⟨lex, s', hp, Or.inl ⟨a, ha, hc', hx'⟩, hwf, hnone⟩
@@ -1254,7 +1446,7 @@ theorem next_sound {σ} [DecidableEq σ] (env : Env) (prog : σ → Prog σ) (in
     | some l => exact ⟨hg', hwf, by simp⟩
     | none =>
       have := nextLoop_sound env prog inputs reachAt ht fuel s' hg'
-      rw [hnone rfl] at this
+      rw [(hnone rfl).1, (hnone rfl).2] at this
       exact this
 
 /-- how a whole scan ends, and what it has produced -/
@@ -1286,10 +1478,56 @@ theorem scanFrom_sound {σ} [DecidableEq σ] (env : Env) (prog : σ → Prog σ)
           · exact (hn.2.1 _ rfl).1
           · exact hacc x hx)
 
+/-- lexemes in text order without overlap: each begins after the end of every earlier one (`le` = the
+    largest end position so far) -/
+def OrderedFrom : Int → List Lexeme → Prop
+  | _, [] => True
+  | le, l :: rest => le < l.b ∧ OrderedFrom (max le l.e) rest
+
+def leAfter (le : Int) (ls : List Lexeme) : Int := ls.foldl (fun m l => max m l.e) le
+
+theorem orderedFrom_append (le : Int) (ls : List Lexeme) (l : Lexeme) (h : OrderedFrom le ls) (hl : leAfter le ls < l.b) :
+    OrderedFrom le (ls ++ [l]) := by
+  induction ls generalizing le with
+  | nil => exact ⟨by simpa [leAfter] using hl, trivial⟩
+  | cons x rest ih =>
+    exact ⟨h.1, ih (max le x.e) h.2 (by simpa [leAfter] using hl)⟩
+
+theorem leAfter_append (le : Int) (ls : List Lexeme) (l : Lexeme) : leAfter le (ls ++ [l]) = max (leAfter le ls) l.e := by
+  simp [leAfter, List.foldl_append]
+
+/-- the lexemes of a whole scan come in text order and do not overlap -/
+theorem scanFrom_ordered {σ} [DecidableEq σ] (env : Env) (prog : σ → Prog σ) (inputs : List UInt8)
+    (reachAt : σ → List (RKey σ)) (ht : TableOk prog inputs reachAt) (fuel n : Nat) (le0 : Int) (s : Sc σ)
+    (acc : List Lexeme) (hg : Good env reachAt s) (hord : OrderedFrom le0 acc.reverse) (hle : s.le = leAfter le0 acc.reverse) :
+    OrderedFrom le0 (scanFrom env prog fuel n s acc).1 := by
+  induction n generalizing s acc with
+  | zero => simpa [scanFrom] using hord
+  | succ n ih =>
+    simp only [scanFrom]
+    have hn := next_sound env prog inputs reachAt ht fuel s hg
+    revert hn
+    cases next env prog fuel s with
+    | error f' => intro _; simpa using hord
+    | ok r =>
+      obtain ⟨lex, s'⟩ := r
+      cases lex with
+      | none => intro _; simpa using hord
+      | some l =>
+        intro hn
+        obtain ⟨_, _, hlo⟩ := hn.2.1 l rfl
+        refine ih s' (l :: acc) hn.1 ?_ ?_
+        · simp only [List.reverse_cons]
+          exact orderedFrom_append le0 _ l hord (by rw [← hle]; exact hlo.1)
+        · simp only [List.reverse_cons]
+          rw [leAfter_append, ← hle]
+          exact hlo.2
+
 /-- the initial state is covered as soon as the reach set has the root entry -/
 theorem good_init {σ} [DecidableEq σ] (env : Env) (reachAt : σ → List (RKey σ)) (root : σ)
-    (h : (reachAt root).contains ([], [], 0, true, [], 0, false) = true) : Good env reachAt (Sc.init root) :=
+    (h : (reachAt root).contains ([], [], 0, true, [], 0, false, 1) = true) : Good env reachAt (Sc.init root) :=
   Or.inl ⟨{ st := root, stk := [], evk := [] }, h, ⟨rfl, ⟨[], rfl⟩, rfl⟩,
-    ⟨⟨[], rfl, trivial⟩, by simp [Sc.init], by simp [Sc.init], by simp [Sc.init], rfl⟩⟩
+    ⟨⟨[], rfl, trivial⟩, by simp [Sc.init], by simp [Sc.init], by simp [Sc.init], rfl,
+      ⟨([], -1), rfl, by simp [Sc.init]⟩, by simp [Sc.init], by simp [Sc.init]⟩⟩
 
 end JsightVerif.Model
